@@ -2,7 +2,7 @@
    whichever the tree has; the driver probes it).  All statements are over the model, for every iteration order of the
    Go maps involved (the order is an argument) and every batch limit. *)
 From Coq Require Import List NArith Bool.
-From Verif.C23 Require Import Model Spec Lemmas ProofsGC ProofsSteps Witness Inv Binv Reach Grace Grace2 NonK8s.
+From Verif.C23 Require Import Model Spec Lemmas ProofsGC ProofsSteps Witness Inv Binv Reach Grace Grace2 NonK8s Tunnel.
 Import ListNotations.
 Open Scope N_scope.
 
@@ -211,3 +211,80 @@ Example c23_nonk8s_example :
   let '(c3, o2) := sync_ipam f w2 (nodes_to_check c2) c_conf (fun c => map fst (c_empty c)) c2 in
   knode_for w c 1 = KErr /\ (so_rel o1, so_rba o1, so_rha o1) = ([], [], []) /\ (so_rel o2, so_rba o2, so_rha o2) = ([], [], []).
 Proof. vm_compute. repeat split; reflexivity. Qed.
+
+(* ======================= the re-check before release, tunnel addresses =======================
+   checkAllocations records the Kubernetes node it resolved on every allocation of the node it looks at - tunnel
+   addresses included - and garbageCollectKnownLeaks judges a tunnel address by that record.  Hence: from any reachable
+   state (whatever is rolled over in confirmedLeaks from earlier syncs: incomplete handle, FAILED release, node deleted
+   and re-registered in between - reach includes failed syncs), if a sync looks at node cn and cn resolves to a
+   Kubernetes node name, no tunnel address listed under cn (and only under cn) is in that sync's ReleaseIPs call. *)
+Theorem c23_tunnel_recheck_before_release : forall f w c norder gorder border cn kn i a0,
+  is_repaired f -> reach f w c ->
+  In cn norder -> knode_for w c cn = KNode kn -> kn <> 0 ->
+  In (cn, i) (c_bynode c) -> (forall n', In (n', i) (c_bynode c) -> n' = cn) ->
+  aget i (c_allocs c) = Some a0 -> at_tun (a_attrs a0) = true ->
+  ~ In i (map r_id (so_rel (snd (sync_ipam f w norder gorder border c)))).
+Proof. exact sync_tunnel_recheck. Qed.
+Print Assumptions c23_tunnel_recheck_before_release.
+
+(* the rollover scenario, computed: node gone -> tunnel address confirmed -> ReleaseIPs fails (nothing released) ->
+   node re-registers -> next full sync resurrects the address instead of releasing it *)
+Definition rollover_events1 : list event :=
+  [EKNode 1 true; ECNodeApi 1 (Some true); ECNodeSync 1 (Some true);
+   EBlock 1 (Some {| b_aff := AffHost 1; b_allocs := [mkBA 0 (Some 21) {| at_node := 1; at_pod := 0; at_tun := true |} 1] |});
+   EKNode 1 false; ECNodeApi 1 None; ECNodeSync 1 None; EFull].
+Example c23_tunnel_rollover_example :
+  let f := repaired (Some 900) 10000 in
+  let '(w, c) := run_events true rollover_events1 (world0, ctrl0) in
+  let '(c1, o1) := sync_ipam_failed f w (nodes_to_check c) c_conf (fun _ => false) c in
+  let '(w2, c2) := run_events true [EKNode 1 true; ECNodeApi 1 (Some true); ECNodeSync 1 (Some true); EFull] (w, c1) in
+  let '(c3, o2) := sync_ipam f w2 (nodes_to_check c2) c_conf (fun c => map fst (c_empty c)) c2 in
+  map r_id (so_rel o1) = [(21, 1, 0)] /\ c_conf c1 = [(21, 1, 0)] /\ so_rel o2 = [] /\ c_conf c3 = [].
+Proof. vm_compute. repeat split; reflexivity. Qed.
+
+(* a failed ReleaseIPs call is the very call the successful sync would have made: everything proved about so_rel
+   (unjustified at release time, whole handles, grace chain, tunnel re-check) holds for failed syncs too *)
+Theorem c23_failed_release_same_call : forall f w norder gorder border done c,
+  f_fixgc f = true ->
+  so_rel (snd (sync_ipam_failed f w norder gorder done c)) = so_rel (snd (sync_ipam f w norder gorder border c)).
+Proof. exact sync_failed_same_call. Qed.
+Print Assumptions c23_failed_release_same_call.
+
+(* ======================= the per-node index: refuted =======================
+   "Every entry of allocationState.allocationsByNode is a tracked allocation" is FALSE: an allocation re-allocated in
+   place (same handle and address, new sequence number) with a different node attribute keeps its entry under the
+   old node (releaseAllocation looks under the new node), and the entry outlives the allocation.  Replayed on the real
+   controller (driver zombieProbe): allocationsByNode[node-1] = {h1/10.0.1.0} with no tracked allocation, and the next
+   sync calls ReleaseIPs for that address although no block seen contains it.  Fix: fixes/C23-reindex-node-on-realloc.patch.
+   (Beyond this point model and code differ - the model drops the orphan entry's data, the code keeps the object -
+   which is why "the node attribute of an allocation id does not change" is a stated assumption of the generator.) *)
+Definition zombie_events : list event :=
+  [EBlock 1 (Some {| b_aff := AffHost 1; b_allocs := [mkBA 0 (Some 1) at11 1] |});
+   EBlock 1 (Some {| b_aff := AffHost 1; b_allocs := [mkBA 0 (Some 1) {| at_node := 2; at_pod := 1; at_tun := false |} 2] |});
+   EBlock 1 (Some {| b_aff := AffHost 1; b_allocs := [] |})].
+Theorem c23_bynode_index_refuted :
+  exists evs, let c := snd (run_events true evs (world0, ctrl0)) in
+              reach (repaired (Some 900) 10000) (fst (run_events true evs (world0, ctrl0))) c
+              /\ In (1, (1, 1, 0)) (c_bynode c) /\ c_allocs c = [].
+Proof.
+  exists zombie_events. split; [apply (reach_run_events (repaired (Some 900) 10000)); constructor|].
+  vm_compute. split; auto.
+Qed.
+Print Assumptions c23_bynode_index_refuted.
+
+(* ======================= model meets spec (the parts proved) =======================
+   The oracle's clauses for the block and node calls accept every model sync:
+   - ok_lastblock: c23_never_last_block above is literally Spec.ok_lastblock on the blocks the controller has seen;
+   - ok_rha: below, given that the oracle's replay of the world and of the syncer's node cache coincides with the
+     controller's (both fold the same events) and that no Kubernetes node has the empty name.
+   PARTIAL: the clauses ok_release / ok_grace / ok_handles / ok_books are proved as statements over the model's own
+   state (c23_release_only_invalid, c23_release_only_invalid_after_grace, c23_handle_all_or_none_history,
+   c23_bookkeeping_consistent) but not as "ok_case (model run) = true": missing is the simulation lemma
+   Sim(s, w, c) := s_w s = w /\ s_cnodes s = c_cnodes c /\ s_seen s = c_blocks c /\ tracked s = ids of c_allocs,
+   preserved by spec_step / model_step (needs c_blocks after a sync = fold mdel so_rba, and "c_allocs = image of the
+   blocks minus what the collector released", the allocation-level half of the bookkeeping invariant). *)
+Theorem c23_model_meets_spec_node_cleanup_partial : forall f w norder gorder border c s,
+  s_w s = w -> s_cnodes s = c_cnodes c -> ~ In 0 (w_knodes w) ->
+  ok_rha s (so_rha (snd (sync_ipam f w norder gorder border c))) = true.
+Proof. exact sync_meets_ok_rha. Qed.
+Print Assumptions c23_model_meets_spec_node_cleanup_partial.
